@@ -384,13 +384,15 @@ theorem gz_classes_distinct_files (o : DistOpts) (x dir : String)
 open ObiVerif.Distribute in
 /-- **the pattern as it is typed** (`-p`, `CLIFileNamePattern` repaired): a pattern is accepted iff it is
 text (`%%` = a percent sign) around exactly one `%s` (`parsePatternL`); for an accepted pattern
-`fmt.Sprintf(pattern, class)` is `prefix ++ class ++ suffix` — the class value printed once and in full —
-and, for plain names, two classes get the same file iff they are equal.  Every other pattern stops the
+`fmt.Sprintf(pattern, class)` is `prefix ++ class ++ suffix` — the class value printed once and in full —,
+"the typed pattern ends with `.gz`" (`strings.HasSuffix`, the `-Z` rule of `WriterDispatcher`) is what the model
+decides on `prefix%ssuffix`, and, for plain names, two classes get the same file iff they are equal.  Every other pattern stops the
 command before a file is written (examples below: no verb, `%.0s`, `%[2]s`, `%.1s`, two verbs, `%d`,
 `%%s`).  On the unrepaired code `-p out%.0s.fasta` gave every class the file `out.fasta` and the records
 of all the classes but one were lost. -/
 theorem name_pattern_exact (o o' : DistOpts) (pattern : String) (h : o.withPattern pattern = some o') :
     (∀ key, sprintfL key pattern.toList = o'.patPre.toList ++ key ++ o'.patSuf.toList) ∧
+    (endsWithL pattern.toList gzSuffix = endsWithL (patternL o'.patPre.toList o'.patSuf.toList) gzSuffix) ∧
     (o'.compressed = o.compressed ∧ o'.classifierTag = o.classifierTag ∧ o'.directoryTag = o.directoryTag ∧
       o'.naValue = o.naValue ∧ o'.batchCount = o.batchCount ∧ o'.hashSize = o.hashSize ∧ o'.append = o.append) ∧
     ('/' ∉ pattern.toList → ∀ kd1 kd2 : String × String,
@@ -400,10 +402,12 @@ theorem name_pattern_exact (o o' : DistOpts) (pattern : String) (h : o.withPatte
   simp only [Option.map_eq_some_iff] at h
   obtain ⟨p, hp, rfl⟩ := h
   obtain ⟨pre, suf⟩ := p
-  refine ⟨?_, ⟨rfl, rfl, rfl, rfl, rfl, rfl, rfl⟩, ?_⟩
+  refine ⟨?_, ?_, ⟨rfl, rfl, rfl, rfl, rfl, rfl, rfl⟩, ?_⟩
   · intro key
     simp only [String.toList_ofList]
     exact sprintf_shape key pattern.toList.length pattern.toList pre suf (Nat.le_refl _) hp
+  · simp only [String.toList_ofList]
+    exact parsePatternL_gz pattern.toList pre suf hp
   · intro hs kd1 kd2 h1 h2
     have hmem := parsePatternL_mem pattern.toList.length pattern.toList pre suf (Nat.le_refl _) hp '/'
     exact file_determined_by_class _ kd1 kd2
@@ -1281,8 +1285,8 @@ theorem spelling_same_outcome (decls : List Decl) (ws ws' : List String)
         · split <;> rfl
       · intro st
         split
-        · exact ⟨fun x => by cases x, fun x => by cases x⟩
-        · split <;> exact ⟨fun x => by cases x, fun x => by cases x⟩
+        · exact Iff.intro (fun x => nomatch x) (fun x => nomatch x)
+        · split <;> exact Iff.intro (fun x => nomatch x) (fun x => nomatch x)
 
 /-- test: `-vl 3 --min-c=2 x -- -y` against `--inverse-match --min-length=3 --min-count=2 x -- -y` -/
 example : (Getopt.outcome Getopt.grepDecls ["-vl", "3", "--min-c=2", "x", "--", "-y"]).exit =
